@@ -1,60 +1,332 @@
 package main
 
 import (
+	"github.com/atlassian/escalator/pkg/controller"
+
 	"encoding/json"
+	"fmt"
 	"math/rand"
+	"os"
+	"sort"
+	"strings"
 	"time"
 )
 
+var scanProps = []string{"C01", "C02", "C03", "C04", "C06", "C07", "C08", "C09", "C10", "C11", "C12", "C15", "C19", "C20"}
+
 func init() {
-	for _, p := range []string{"SCAN", "C01", "C02", "C03", "C04", "C06", "C07", "C08", "C09", "C10", "C11", "C12", "C15", "C19", "C20"} {
+	engines["SCAN"] = scanEngine
+	engines["C05S"] = scanEngine // C05, scan side: scale-up composition and the node-size cache (mismatches_C05S / propfail_C05S)
+	for _, p := range scanProps {
 		engines[p] = scanEngine
 	}
 }
 
-func genScanSpecs(prop, tier string, rng *rand.Rand) []*scanSpec {
-	base := time.Now().Unix()
-	n := 300
-	if tier == "thorough" {
-		n = 6000
+// genInclude: shapes that expose a recorded disagreement are kept out of the default streams; VERIF_GEN_INCLUDE=<name>[,<name>] adds them.
+func genInclude(name string) bool {
+	for _, x := range strings.Split(os.Getenv("VERIF_GEN_INCLUDE"), ",") {
+		if x == name || x == "all" {
+			return true
+		}
 	}
-	specs := []*scanSpec{}
-	for i := 0; i < n; i++ {
-		specs = append(specs, randomScan(rng, base))
+	return false
+}
+
+// roundTrip normalises a generated case through its JSON form, so that a replay of the stored spec is the same input.
+func roundTrip(c genCase) (genCase, error) {
+	out := genCase{Pair: c.Pair, Varied: c.Varied}
+	if c.Single != nil {
+		b, err := json.Marshal(c.Single)
+		if err != nil {
+			return out, err
+		}
+		out.Single = &scanSpec{}
+		return out, json.Unmarshal(b, out.Single)
 	}
-	return specs
+	b, err := json.Marshal(c.Hist)
+	if err != nil {
+		return out, err
+	}
+	out.Hist = &histSpec{}
+	return out, json.Unmarshal(b, out.Hist)
+}
+
+// obsClass: what the scan did, for the input distribution of the evidence.
+func obsClass(s *scanSpec, obs *scanObs, kind string) string {
+	acts := map[byte]bool{}
+	for _, g := range obs.Groups {
+		for _, e := range g.Calls {
+			if e.K8s != nil {
+				switch e.K8s.Verb {
+				case "update":
+					if e.K8s.Payload != nil && isEscTainted(e.K8s.Payload) {
+						acts['T'] = true
+					} else {
+						acts['U'] = true
+					}
+				case "delete":
+					acts['D'] = true
+				}
+			}
+			if e.Aws != nil {
+				switch e.Aws.Kind {
+				case "SetDesired":
+					acts['S'] = true
+				case "CreateFleet":
+					acts['F'] = true
+				case "TermInAsg":
+					acts['X'] = true
+				case "DescribeInstances":
+					acts['L'] = true
+				}
+			}
+		}
+	}
+	a := ""
+	for _, c := range []byte("TUSFXDL") {
+		if acts[c] {
+			a += string(c)
+		}
+	}
+	if a == "" {
+		a = "-"
+	}
+	fault, dry, locked := "", s.GlobalDry, false
+	for _, g := range s.Groups {
+		if len(g.K8s.GetFail)+len(g.K8s.UpdateFail)+len(g.K8s.DeleteFail) > 0 && !strings.Contains(fault, "k") {
+			fault += "k"
+		}
+		if (len(g.Aws.TermInAsgFail) > 0 || g.Aws.SetDesiredFail || g.Aws.DescInstFail || g.Aws.FleetFail || g.Aws.DescribeMode != 0 || len(g.Aws.AttachFail) > 0) && !strings.Contains(fault, "a") {
+			fault += "a"
+		}
+		dry = dry || g.Opts.DryMode
+		if g.State.LockAgeNs != nil && *g.State.LockAgeNs < int64(g.Opts.ScaleUpCoolDownPeriodDuration()) {
+			locked = true
+		}
+	}
+	if s.API != nil && !strings.Contains(kind, "hist") {
+		fault += "l" // lister lag
+	}
+	if fault == "" {
+		fault = "-"
+	}
+	return fmt.Sprintf("%s groups=%d out=%d acts=%s fault=%s dry=%v locked=%v", kind, len(s.Groups), obs.Out, a, fault, dry, locked)
 }
 
 func scanEngine(prop, tier string, rng *rand.Rand, replay []json.RawMessage) (*EngineResult, error) {
 	installExitTrap()
-	var specs []*scanSpec
+	var cases []genCase
 	if replay != nil {
 		for _, r := range replay {
-			s := &scanSpec{}
-			if err := json.Unmarshal(r, s); err != nil {
-				return nil, err
+			if isHistoryJSON(r) {
+				h := &histSpec{}
+				if err := json.Unmarshal(r, h); err != nil {
+					return nil, err
+				}
+				cases = append(cases, genCase{Hist: h})
+			} else {
+				s := &scanSpec{}
+				if err := json.Unmarshal(r, s); err != nil {
+					return nil, err
+				}
+				cases = append(cases, genCase{Single: s})
 			}
-			specs = append(specs, s)
 		}
 	} else {
-		specs = genScanSpecs(prop, tier, rng)
+		for _, c := range genScanCases(prop, tier, rng) {
+			n, err := roundTrip(c)
+			if err != nil {
+				return nil, err
+			}
+			cases = append(cases, n)
+		}
 	}
 	suffix := prop
 	if prop == "SCAN" {
 		suffix = "scan"
 	}
-	res := &EngineResult{Import: "CorrScan", CaseType: "scan_case", PerShard: 60,
-		Evals: []EvalDef{{"R", "mismatches_" + suffix}, {"V", "propfail_" + suffix}, {"T", "tags_scan"}, {"W", "illformed_scan"}},
-		Rule: "scans of the real Controller.RunOnce over a simulated API server and simulated AWS; boundary-directed and structured random worlds; " +
-			"non-trivial = the scan issued at least one Kubernetes or AWS call; distinct = distinct (journal, post-state, outcome)"}
-	for _, s := range specs {
-		obs, err := runScanSpec(s)
-		if err != nil {
-			return nil, err
-		}
-		coq, key, nt, cls := emitScanCase(s, &obs)
-		sp, _ := json.Marshal(s)
-		res.Cases = append(res.Cases, CaseOut{Coq: coq, Spec: sp, Key: key, Nontrivial: nt, Class: cls})
+	evals := []EvalDef{{"R", "mismatches_" + suffix}, {"V", "propfail_" + suffix}, {"T", "tags_scan"}, {"W", "illformed_scan"}}
+	if prop == "C19" || prop == "SCAN" {
+		evals = append(evals, EvalDef{"K_K3", "known_K3"}) // known finding K3: not-in-group on the force-removal path is only logged
 	}
+	res := &EngineResult{Import: "CorrScan", CaseType: "scan_case", PerShard: 60,
+		Evals: evals,
+		Rule: "scans of the real Controller.RunOnce over a simulated API server and simulated AWS; per-property boundary-directed worlds first, then multi-scan " +
+			"histories of one controller instance (every scan emitted with its actual pre-scan state), then free-combination random worlds; " +
+			"non-trivial = the scan issued at least one Kubernetes or AWS call; distinct = distinct (journal, post-state, outcome)",
+		Extra: map[string]interface{}{}}
+	t0 := time.Now()
+	skipped := map[string]int{}
+	excluded := map[string]int{}
+	nhist, nhistScans := 0, 0
+	pairs := map[string][]pairSide{}
+	for _, c := range cases {
+		if c.Single != nil {
+			if x := excludedShape(prop, c.Single); x != "" && !genInclude(x) && replay == nil {
+				excluded[x]++
+				continue
+			}
+			if os.Getenv("VERIF_TRACE") != "" {
+				fmt.Fprintf(os.Stderr, "case %d: %s\n", len(res.Cases), c.Single.Note)
+				b, _ := json.Marshal([]*scanSpec{c.Single})
+				os.WriteFile(os.Getenv("VERIF_TRACE"), b, 0o644)
+			}
+			obs, err := runScanSpec(c.Single)
+			if err != nil {
+				return nil, fmt.Errorf("spec %q: %v", c.Single.Note, err)
+			}
+			coq, key, nt, _ := emitScanCase(c.Single, &obs)
+			sp, _ := json.Marshal(c.Single)
+			res.Cases = append(res.Cases, CaseOut{Coq: coq, Spec: sp, Key: key, Nontrivial: nt, Class: obsClass(c.Single, &obs, "single")})
+			if c.Pair != "" {
+				pairs[c.Pair] = append(pairs[c.Pair], pairSide{spec: c.Single, obs: obs, varied: c.Varied, raw: sp})
+			}
+			continue
+		}
+		scans, err := runHistory(c.Hist)
+		if err != nil {
+			return nil, fmt.Errorf("history %q: %v", c.Hist.Shape, err)
+		}
+		nhist++
+		for k := range scans {
+			if c.Hist.EmitOnly != nil && k != *c.Hist.EmitOnly {
+				continue
+			}
+			if scans[k].Skipped != "" {
+				skipped[scans[k].Skipped]++
+				continue
+			}
+			if x := excludedShape(prop, scans[k].Spec); x != "" && !genInclude(x) && replay == nil {
+				excluded[x]++
+				continue
+			}
+			nhistScans++
+			coq, key, nt, _ := emitScanCase(scans[k].Spec, &scans[k].Obs)
+			sp, _ := json.Marshal(c.Hist.truncated(k))
+			res.Cases = append(res.Cases, CaseOut{Coq: coq, Spec: sp, Key: key, Nontrivial: nt,
+				Class: obsClass(scans[k].Spec, &scans[k].Obs, "hist:"+c.Hist.Shape)})
+		}
+	}
+	if v := comparePairs(pairs); len(v) > 0 {
+		res.Extra["violations"] = v
+	}
+	if len(pairs) > 0 {
+		res.Extra["metamorphic_pairs"] = len(pairs)
+	}
+	res.Extra["histories"] = nhist
+	res.Extra["history_scans"] = nhistScans
+	if len(skipped) > 0 {
+		res.Extra["history_scans_skipped_for_clock_margin"] = skipped
+	}
+	if len(excluded) > 0 {
+		res.Extra["excluded_recorded_disagreements"] = excluded
+	}
+	if slowRetries > 0 {
+		res.Extra["scans_rerun_because_the_process_stalled"] = slowRetries
+	}
+	res.Extra["harness_seconds"] = time.Since(t0).Seconds()
 	return res, nil
+}
+
+func sortedStrings(m map[string]bool) []string {
+	out := []string{}
+	for k := range m {
+		out = append(out, k)
+	}
+	sort.Strings(out)
+	return out
+}
+
+// excludedShape names the recorded model/code disagreement (design-notes/gen-notes.md, harness/corpus/<name>.json) the
+// scan matches, or "".  Such scans are dropped from the default streams; VERIF_GEN_INCLUDE=<name> keeps them.
+func excludedShape(prop string, s *scanSpec) string {
+	for _, g := range s.Groups {
+		// (oom_untaint_capacity was guarded out here until /repo commit 0dab031 bounded the slice in untaintNewestN; the shape is
+		// part of the C20 stream now.)
+		_ = g
+		// (stale_lock_flag_early_return for C02 and c06_fatal_reap_nonmember for C06 were excluded here until main restated
+		// check_C02_group / api_faithful; the corpus files stay as regression inputs and are quiet now.)
+		// (zero_created_zero_lastout was excluded here until main's Scan.newer_than read a never-set lastScaleOut as Go's zero
+		// time; corpus/zero_created_zero_lastout.json is the regression input and is quiet now.)
+	}
+	return ""
+}
+
+// roughScaleUpDelta estimates the scale-up delta of the group's scan (float arithmetic, no rounding care): only used to
+// keep absurd worlds that would make untaintNewestN allocate gigabytes out of the default streams.
+func roughScaleUpDelta(s *scanSpec, g groupSpec) float64 {
+	filter := controller.NewPodAffinityFilterFunc(g.Opts.LabelKey, g.Opts.LabelValue)
+	if g.Opts.Name == controller.DefaultNodeGroup {
+		filter = controller.NewPodDefaultFilterFunc()
+	}
+	var reqC, reqM, capC, capM, unt float64
+	tainted := false
+	dry := s.GlobalDry || g.Opts.DryMode
+	var first *resourcePair
+	for _, n := range s.Nodes {
+		if n.Labels[g.Opts.LabelKey] != g.Opts.LabelValue {
+			continue
+		}
+		if first == nil {
+			first = &resourcePair{float64(n.Status.Allocatable.Cpu().MilliValue()), float64(n.Status.Allocatable.Memory().MilliValue())}
+		}
+		switch classOf(n, dry, g.State.TaintTracker, g.State.ForceTracker) {
+		case 0:
+			unt++
+			capC += float64(n.Status.Allocatable.Cpu().MilliValue())
+			capM += float64(n.Status.Allocatable.Memory().MilliValue())
+		case 1:
+			tainted = true
+		}
+	}
+	if !tainted {
+		return 0 // without tainted nodes scaleUpUntaint returns before the allocation
+	}
+	for _, p := range s.Pods {
+		if !filter(p) {
+			continue
+		}
+		for _, c := range p.Spec.Containers {
+			reqC += float64(c.Resources.Requests.Cpu().MilliValue())
+			reqM += float64(c.Resources.Requests.Memory().MilliValue())
+		}
+		for _, c := range p.Spec.InitContainers {
+			reqC += float64(c.Resources.Requests.Cpu().MilliValue())
+			reqM += float64(c.Resources.Requests.Memory().MilliValue())
+		}
+		if p.Spec.Overhead != nil {
+			reqC += float64(p.Spec.Overhead.Cpu().MilliValue())
+			reqM += float64(p.Spec.Overhead.Memory().MilliValue())
+		}
+	}
+	thr := float64(g.Opts.ScaleUpThresholdPercent)
+	if thr <= 0 {
+		thr = 0.01
+	}
+	worst := 0.0
+	ratio := func(r, c float64) float64 {
+		if c <= 0 {
+			return 0
+		}
+		return r / c * 100 / thr
+	}
+	if unt > 0 {
+		worst = unt * maxf(ratio(reqC, capC), ratio(reqM, capM))
+	} else {
+		cc, cm := float64(g.State.CacheCPU), float64(g.State.CacheMem)*1000
+		if first != nil {
+			cc, cm = first.c, first.m
+		}
+		worst = maxf(ratio(reqC, cc), ratio(reqM, cm))
+	}
+	return worst
+}
+
+type resourcePair struct{ c, m float64 }
+
+func maxf(a, b float64) float64 {
+	if a > b {
+		return a
+	}
+	return b
 }
